@@ -12,7 +12,7 @@ from fractions import Fraction
 from vlib import core
 from translate import t3_expr
 
-ALLOWED = sorted(core.STDLIB_REAL_AXIOMS) + ['Axioms']   # 'Axioms' = the header line of Print Assumptions' output (parser artefact)
+ALLOWED = sorted(core.STDLIB_REAL_AXIOMS)
 TAU_BITS = 40
 
 
@@ -136,6 +136,13 @@ def run(ctx):
     ctx.sample({'theorem': 'C10_evaluate_fold : forall tv s t, wf eps n_args t -> terms_shape tv s t -> exists a, value_of eps n_args tv t = Some a '
                            '/\\ eval_code n_args chain ev_children_first tv t = Ok (PArr a) /\\ shape a = s'})
     ctx.sample({'theorem': 'C10_DIV : forall x y, (y + eps <> 0 -> op_den "DIV" x y = Some (x / (y + eps))) /\\ (y + eps = 0 -> op_den "DIV" x y = None)'})
+
+
+def regenerate():
+    text, items, errors = t3_expr.generate_nodeops(core.REPO)
+    if text is not None:
+        core.write_if_changed(os.path.join(core.GEN, 'NodeOps.v'), text)
+    return errors
 
 
 def replay(ctx, path):
